@@ -18,6 +18,14 @@ from .interp import Interp, Unsupported, Binding, lname
 from .terms import AND, simp
 
 
+class _First:
+    def __init__(self, node, mid):
+        self.node, self.mid = node, mid
+
+    def __str__(self):
+        return str(self.node)
+
+
 class LfricInterp(Interp):
     def __init__(self, *a, **kw):
         super().__init__(*a, **kw)
@@ -27,9 +35,14 @@ class LfricInterp(Interp):
         self.lfric_events = []        # (guard, object key, method, args)
         self.extern_handler = self._lfric_call
         self.struct_hints.update({"value": ("real", 0)})
-        for nm in ("np_xy", "np_z", "np_xyz", "nfaces", "nedges"):
+        for nm in ("np_xy", "np_z", "np_xyz", "nfaces", "nedges", "ncell_3d", "nrow", "ncol", "bandwidth", "alpha",
+                   "beta", "gamma_m", "gamma_p", "ncell_2d"):
             self.struct_hints[nm] = ("integer", 0)
+        for nm in ("vspace", "fs_from", "fs_to"):
+            self.struct_hints[nm] = ("struct", 0, "function_space_type")
         self.basis_of = {}
+        self.extent_contract = {}     # see contract_bounds
+        self.key_alias = {}           # element of a local array of proxies -> the object it is a proxy of
         self.kernel_calls = []        # (guard, name, [arg descriptors], loop stack snapshot)
         self.kernel_effect = None     # callable(self, kernel name, arg nodes, frame, guard): data effect of a kernel
         self.summarise = False        # True: every DO loop is summarised by a Skolem loop variable
@@ -95,6 +108,20 @@ class LfricInterp(Interp):
             base = self._method_base(rhs, frame)
             frame.vars[lname(lhs)] = Binding(lname(lhs), "struct", base.key, rank=base.rank, struct=base.struct)
             return
+        if isinstance(lhs, F.Part_Ref) and self._is_proxy_getter(rhs):
+            # f_proxy(2) = f(2)%get_proxy(): element-wise alias
+            lb = self.lookup(lname(lhs.items[0]), frame)
+            if lb is None or lb.tname != "struct":
+                raise Unsupported("proxy array " + str(lhs))
+            base = self._method_base(rhs, frame)
+            subs = lhs.items[1].items if isinstance(lhs.items[1], F.Section_Subscript_List) else [lhs.items[1]]
+            ivs = [z3.simplify(self.ev_scalar(x, frame, g)) for x in subs]
+            if not all(z3.is_int_value(v) for v in ivs):
+                raise Unsupported("proxy array element with a non-literal subscript")
+            self.key_alias[lb.key + "[" + ",".join(str(v.as_long()) for v in ivs) + "]"] = base.key
+            return
+        if self._is_method(rhs, "call_function"):
+            return          # evaluator values: contents do not matter here
         if isinstance(lhs, F.Name) and self._is_method(rhs, None):
             b = frame.vars.get(lname(lhs))
             if b is not None and getattr(b, "is_pointer", False) and b.rank > 0:
@@ -109,7 +136,7 @@ class LfricInterp(Interp):
         key = f"{okey}%{meth}"
         if key not in self.store:
             self.new_storage(key, b.tname, b.rank, is_input=True)
-        bounds = self._comp_bounds(key, b.rank)
+        bounds = self.contract_bounds(key, b.rank, okey, meth)
         frame.vars[name] = Binding(name, b.tname, key, rank=b.rank, bounds=bounds)
 
     def exec_alloc(self, s, frame, g):
@@ -153,9 +180,8 @@ class LfricInterp(Interp):
             return
         if isinstance(rhs, F.Data_Ref):
             parts = rhs.items
-            base = self.lookup(lname(parts[0]), frame)
-            if base is None or base.tname != "struct":
-                raise Unsupported("pointer target")
+            bkey, bstruct = self.obj_key(parts[0], frame)
+            base = Binding("obj", "struct", bkey, struct=bstruct)
             comp = "%".join(lname(p) for p in parts[1:])
             key = base.key + "%" + comp
             if b.tname == "struct":
@@ -170,29 +196,47 @@ class LfricInterp(Interp):
             elif b.rank == 0:
                 bounds = []
             else:
-                bounds = self._comp_bounds(key, b.rank)
+                bounds = self.contract_bounds(key, b.rank, base.key, lname(parts[-1]))
             frame.vars[name] = Binding(name, b.tname, key, rank=b.rank, bounds=bounds)
             return
         raise Unsupported("pointer assignment form")
 
+    def contract_bounds(self, key, rank, okey, what):
+        """bounds of an infrastructure array: symbolic extents, with the extents the LFRic API documents for
+        this accessor substituted (`self.extent_contract`: what -> [callable(self, okey) or None per dimension])"""
+        bounds = self._comp_bounds(key, rank)
+        spec = self.extent_contract.get(what)
+        if spec:
+            for d, fn in enumerate(spec[:rank]):
+                if fn is not None:
+                    e = fn(self, okey)
+                    self.assumptions.append(bounds[d][1] == e)
+        return bounds
+
     # ------------------------------------------------------------ expressions
     def _method_parts(self, node):
-        """(base name, method, args) for `a%b%meth(args)` in either of fparser2's two shapes"""
+        """(first part, method, args) for `a%b%meth(args)` in either of fparser2's two shapes; the first
+        part is a Name or a Part_Ref (element of an array of objects); `self._mid` receives the components
+        between the two"""
         if isinstance(node, F.Function_Reference) and isinstance(node.items[0], F.Procedure_Designator):
             pd = node.items[0]
             base = pd.items[0]
-            base = base.items[0] if isinstance(base, F.Data_Ref) else base
+            mid = []
+            if isinstance(base, F.Data_Ref):
+                mid = [lname(x.items[0]) if isinstance(x, F.Part_Ref) else lname(x) for x in base.items[1:]]
+                base = base.items[0]
             args = node.items[1]
             args = [] if args is None else (list(args.items) if hasattr(args, "items") and
                                             not isinstance(args, F.Name) else [args])
-            return lname(base), lname(pd.items[2]), args
+            return _First(base, mid), lname(pd.items[2]), args
         if isinstance(node, F.Data_Ref):
             last = node.items[-1]
-            if isinstance(last, F.Part_Ref) and lname(last.items[0]).startswith(("get_", "is_")):
+            if isinstance(last, F.Part_Ref) and lname(last.items[0]).startswith(("get_", "is_", "call_function")):
                 args = last.items[1]
                 args = [] if args is None else (list(args.items) if isinstance(args, F.Section_Subscript_List)
                                                 else [args])
-                return lname(node.items[0]), lname(last.items[0]), args
+                mid = [lname(x.items[0]) if isinstance(x, F.Part_Ref) else lname(x) for x in node.items[1:-1]]
+                return _First(node.items[0], mid), lname(last.items[0]), args
         return None
 
     def _is_proxy_getter(self, node):
@@ -205,14 +249,40 @@ class LfricInterp(Interp):
             return False
         return mp[1] == which if which else True
 
+    def obj_key(self, first, frame):
+        """key of the object a Name / Part_Ref with literal subscripts denotes (through proxy aliases)"""
+        if isinstance(first, F.Part_Ref):
+            b = self.lookup(lname(first.items[0]), frame)
+            if b is None or b.tname != "struct":
+                raise Unsupported("method on non-object " + str(first))
+            subs = first.items[1].items if isinstance(first.items[1], F.Section_Subscript_List) else [first.items[1]]
+            ivs = []
+            for x in subs:
+                v = None if isinstance(x, F.Subscript_Triplet) else z3.simplify(self.ev_scalar(x, frame, z3.BoolVal(True)))
+                if v is None or not z3.is_int_value(v):
+                    raise Unsupported("element of an array of objects with a non-literal subscript")
+                ivs.append(v.as_long())
+            key = b.key + "[" + ",".join(map(str, ivs)) + "]"
+            struct = b.struct
+        else:
+            b = self.lookup(lname(first), frame)
+            if b is None or b.tname != "struct":
+                raise Unsupported("method on non-object " + str(first))
+            key, struct = b.key, b.struct
+        return self.key_alias.get(key, key), struct
+
     def _method_base(self, node, frame):
         mp = self._method_parts(node)
-        b = self.lookup(mp[0], frame)
-        if b is None or b.tname != "struct":
-            raise Unsupported("method on non-object " + mp[0])
-        return b
+        key, struct = self.obj_key(mp[0].node, frame)
+        for c in mp[0].mid:
+            if c != "vspace":            # the function space of a field is identified with the field
+                key += "%" + c
+        return Binding("obj", "struct", key, struct=struct)
 
     def ev(self, node, frame, g):
+        if isinstance(node, F.Name) and self.lookup(lname(node), frame) is None:
+            # a named constant of an infrastructure module (BASIS, x_direction, ...): an arbitrary integer
+            return self.fint("extern", lname(node))
         if self._is_method(node, None):
             base = self._method_base(node, frame)
             _, meth, args = self._method_parts(node)
